@@ -4,6 +4,7 @@ import (
 	"bytes"
 	"errors"
 	"fmt"
+	"math/big"
 	"net"
 	"runtime"
 	"sort"
@@ -79,6 +80,28 @@ func (s *Sim) Do(o Op) (caseT []string, obsT []string) {
 	for k, v := range s.closedConns {
 		before[k] = v
 	}
+	// Keep the virtual clock exact although real time passes: the gap since the previous operation ended
+	// is cancelled for every stored timestamp, and the previous operation's own duration for those that
+	// already existed when it began.  What remains per timestamp is at most the duration of the operation
+	// that set it plus that of the one reading it (tracked in MaxOp).
+	if !s.lastEnd.IsZero() {
+		now := time.Now()
+		if gap := now.Sub(s.lastEnd); gap > 0 {
+			_ = ice.VerifAdvanceBefore(s.A, -gap, time.Time{})
+		}
+		if d := s.lastEnd.Sub(s.lastStart); d > 0 {
+			// those timestamps were just moved by gap: compare against the moved start of the previous operation
+			_ = ice.VerifAdvanceBefore(s.A, -d, s.lastStart.Add(now.Sub(s.lastEnd)))
+		}
+	}
+	opStart := time.Now()
+	defer func() {
+		s.lastStart, s.lastEnd = opStart, time.Now()
+		if d := s.lastEnd.Sub(opStart); d > s.MaxOp && o.Kind != "CL" && !s.closedNow() {
+			s.MaxOp = d
+			s.SlowOp = o.Kind
+		}
+	}()
 	switch o.Kind {
 	case "AL":
 		c, err := MakeCandidate(o.Cand)
@@ -186,7 +209,7 @@ func (s *Sim) Do(o Op) (caseT []string, obsT []string) {
 	case "RD":
 		conn := s.conn()
 		buf := make([]byte, 70000)
-		_ = conn.SetReadDeadline(time.Now().Add(2 * time.Millisecond)) // never block for long: queued data or a timeout
+		_ = conn.SetReadDeadline(time.Now().Add(150 * time.Microsecond)) // never block for long: queued data or a timeout
 		n, err := conn.Read(buf)
 		_ = conn.SetReadDeadline(time.Time{})
 		switch {
@@ -234,6 +257,7 @@ func (s *Sim) Do(o Op) (caseT []string, obsT []string) {
 		rets = append(rets, retCode(err))
 		caseT = append(append(append([]string{"RN"}, CandToks(o.A, l)...), CandToks(o.B, r)...), fmt.Sprint(o.V))
 	case "CL":
+		s.closed = true
 		err := s.A.Close()
 		rets = append(rets, retCode(err))
 		caseT = []string{"CL"}
@@ -350,7 +374,8 @@ func (s *Sim) snapToks(snap ice.VerifSnapshot) []string {
 	t = append(t, opt(snap.HasSelected, fmt.Sprint(snap.SelectedID))...)
 	t = append(t, opt(snap.HasNominated, fmt.Sprint(snap.NominatedID))...)
 	t = append(t, opt(snap.HasLastNomination, fmt.Sprint(snap.LastNomination))...)
-	t = append(t, fmt.Sprint(snap.NextPairID), fmt.Sprint(userTok(snap.LocalUfrag)), fmt.Sprint(userTok(snap.RemoteUfrag)))
+	t = append(t, fmt.Sprint(snap.NextPairID), fmt.Sprint(userTok(snap.LocalUfrag)), fmt.Sprint(userTok(snap.RemoteUfrag)),
+		fmt.Sprint(pwdTok(snap.LocalPwd)), fmt.Sprint(pwdTok(snap.RemotePwd)), b2s(snap.Closed))
 	t = append(t, "P", fmt.Sprint(len(snap.Pending)))
 	for _, q := range snap.Pending {
 		n, ok := s.txNum[q.TransactionID]
@@ -391,7 +416,9 @@ func (s *Sim) snapToks(snap ice.VerifSnapshot) []string {
 		}
 		tk := []string{fmt.Sprint(int(c.Type())), fmt.Sprint(int(c.NetworkType()))}
 		tk = append(tk, AddrOf(ap).Toks()...)
-		tk = append(tk, fmt.Sprint(int(c.TCPType())), fmt.Sprint(c.Priority()), age)
+		tk = append(tk, fmt.Sprint(int(c.TCPType())))
+		tk = append(tk, relToks(c)...)
+		tk = append(tk, fmt.Sprint(c.Priority()), age)
 		rs = append(rs, joinToks(tk))
 	}
 	sort.Strings(rs)
@@ -407,6 +434,8 @@ func (s *Sim) snapToks(snap ice.VerifSnapshot) []string {
 		}
 		t = append(t, fmt.Sprint(p.ID), fmt.Sprint(h), fmt.Sprint(int(p.Remote.Type())), fmt.Sprint(int(p.Remote.NetworkType())))
 		t = append(t, AddrOf(candAddrPort(p.Remote)).Toks()...)
+		t = append(t, fmt.Sprint(int(p.Remote.TCPType())))
+		t = append(t, relToks(p.Remote)...)
 		t = append(t, fmt.Sprint(int(p.State)), b2s(p.Nominated), b2s(p.NominateOnBindingSuccess), fmt.Sprint(p.BindingRequestCount),
 			fmt.Sprint(p.Priority), b2s(p.Controlling), fmt.Sprint(p.ReqSent), fmt.Sprint(p.ReqRecv), fmt.Sprint(p.RespSent),
 			fmt.Sprint(p.RespRecv), fmt.Sprint(p.PacketsSent), fmt.Sprint(p.BytesSent), fmt.Sprint(p.PacketsRecv), fmt.Sprint(p.BytesRecv))
@@ -447,3 +476,173 @@ func (s *Sim) Close() {
 	_ = s.A.Close()
 	ice.VerifForget(s.A)
 }
+
+// ---- replay: parse a case line back into a configuration and operations -------------------
+
+type tokStream struct {
+	t []string
+	i int
+}
+
+func (s *tokStream) next() string {
+	if s.i >= len(s.t) {
+		panic("replay: unexpected end of tokens")
+	}
+	s.i++
+	return s.t[s.i-1]
+}
+func (s *tokStream) peek() string {
+	if s.i >= len(s.t) {
+		return ""
+	}
+	return s.t[s.i]
+}
+func (s *tokStream) int() int {
+	var v int
+	if _, err := fmt.Sscan(s.next(), &v); err != nil {
+		panic(err)
+	}
+	return v
+}
+func (s *tokStream) u64() uint64 {
+	var v uint64
+	if _, err := fmt.Sscan(s.next(), &v); err != nil {
+		panic(err)
+	}
+	return v
+}
+func (s *tokStream) big() *big.Int {
+	v, ok := new(big.Int).SetString(s.next(), 10)
+	if !ok {
+		panic("replay: bad number")
+	}
+	return v
+}
+func (s *tokStream) bool() bool { return s.next() == "1" }
+func (s *tokStream) addr() Addr {
+	v6 := s.bool()
+	ip := s.big()
+	return Addr{v6, ip, s.int()}
+}
+func (s *tokStream) cand() Cand {
+	c := Cand{H: s.int(), Typ: s.int(), Net: s.int()}
+	c.Addr = s.addr()
+	c.TCP = s.int()
+	c.Prio = uint32(s.u64())
+	c.Comp = s.int()
+	if s.peek() == "-" {
+		s.next()
+	} else {
+		c.HasRel = true
+		c.RelIP = s.big()
+		c.RelPort = s.int()
+	}
+	return c
+}
+func (s *tokStream) msg() Msg {
+	m := Msg{Class: s.int(), Method: s.int(), Tx: s.int()}
+	if s.peek() == "-" {
+		s.next()
+	} else {
+		m.HasUser, m.UserA, m.UserB = true, s.int(), s.int()
+	}
+	if s.peek() == "-" {
+		s.next()
+	} else {
+		m.HasKey, m.Key = true, s.int()
+	}
+	m.Use = s.bool()
+	if s.peek() == "-" {
+		s.next()
+	} else {
+		m.HasCtl, m.Ctl, m.TB = true, s.bool(), s.u64()
+	}
+	if s.peek() == "-" {
+		s.next()
+	} else {
+		m.HasPrio, m.Prio = true, uint32(s.u64())
+	}
+	if s.peek() == "-" {
+		s.next()
+	} else {
+		m.HasNom, m.Nom = true, uint32(s.u64())
+	}
+	if s.peek() == "-" {
+		s.next()
+	} else {
+		m.HasErr, m.Err = true, s.int()
+	}
+	if s.peek() == "-" {
+		s.next()
+	} else {
+		m.HasXor, m.Xor = true, s.addr()
+	}
+	return m
+}
+func (s *tokStream) payload() Payload { return Payload{ID: s.int(), Len: s.int(), Stun: s.bool()} }
+
+// ParseCase turns the tokens of a case line (CFG ... ; op ; op ...) into a Config and Ops.
+// The configuration is reconstructed from the effective values recorded in the line.
+func ParseCase(toks []string) (Config, []Op) {
+	s := &tokStream{t: toks}
+	if s.next() != "CFG" {
+		panic("replay: case must start with CFG")
+	}
+	var cfg Config
+	cfg.Lite = s.bool()
+	cfg.TieBreaker = s.u64()
+	cfg.MaxReq = s.int()
+	disc := time.Duration(s.u64())
+	discExplicit := s.bool()
+	cfg.Failed = time.Duration(s.u64())
+	cfg.Keepalive = time.Duration(s.u64())
+	cfg.WaitHost, cfg.WaitSrflx = time.Duration(s.u64()), time.Duration(s.u64())
+	cfg.WaitPrflx, cfg.WaitRelay = time.Duration(s.u64()), time.Duration(s.u64())
+	if discExplicit {
+		cfg.Disc = disc
+	} else {
+		cfg.Disc = -1
+	}
+	nb := s.int()
+	for i := 0; i < nb; i++ {
+		cfg.BlockedIPs = append(cfg.BlockedIPs, s.big())
+	}
+	cfg.Renomination, cfg.CheckPrio = s.bool(), s.bool()
+	s.next() // eps
+	cfg.LUfrag, cfg.LPwd = s.int(), s.int()
+	cfg.TCPPrioOffset = -1
+	var ops []Op
+	for s.peek() != "" {
+		if s.next() != ";" {
+			panic("replay: expected ;")
+		}
+		switch k := s.next(); k {
+		case "AL", "AR":
+			ops = append(ops, Op{Kind: k, Cand: s.cand()})
+		case "ST":
+			ops = append(ops, Op{Kind: k, Ctl: s.bool(), A: s.int(), B: s.int()})
+		case "SC", "RS":
+			ops = append(ops, Op{Kind: k, A: s.int(), B: s.int()})
+		case "AV":
+			ops = append(ops, Op{Kind: k, D: time.Duration(s.u64())})
+		case "TK", "RD", "CL":
+			ops = append(ops, Op{Kind: k})
+		case "IS":
+			ops = append(ops, Op{Kind: k, LH: s.int(), Src: s.addr(), Msg: s.msg()})
+		case "ID":
+			ops = append(ops, Op{Kind: k, LH: s.int(), Src: s.addr(), Payload: s.payload()})
+		case "WR":
+			ops = append(ops, Op{Kind: k, Payload: s.payload()})
+		case "WP":
+			ops = append(ops, Op{Kind: k, PairID: s.u64(), Payload: s.payload()})
+		case "RN":
+			l, r := s.cand(), s.cand()
+			ops = append(ops, Op{Kind: k, A: l.H, B: r.H, V: uint32(s.u64())})
+		default:
+			panic("replay: unknown op " + k)
+		}
+	}
+	return cfg, ops
+}
+
+func (s *Sim) closedNow() bool { return s.closed }
